@@ -21,6 +21,11 @@ structure Obs where
   `.is_first`, `.is_last` -/
   links : List (Id × Option Id × Option Id × Bool × Bool)
   back : List Id                                   -- walk of `.previous` from `.last`
+  /-- `list(zip(container, container))`: two iterations advanced in lock step -/
+  zipped : List (Id × Id)
+  /-- `[(a, b) for a in first three of container for b in container]`: an
+  iteration started while another one is under way -/
+  nested : List (Id × Id)
   deriving Repr, DecidableEq
 
 /-- The observation an ordinary list `l` prescribes. -/
@@ -31,7 +36,9 @@ def expected (l : List Id) : Obs :=
     last := l.getLast?.getD 0
     links := l.map fun x =>
       (x, prevIn l x, nextIn l x, (prevIn l x).isNone, (nextIn l x).isNone)
-    back := l.reverse }
+    back := l.reverse
+    zipped := l.map fun x => (x, x)
+    nested := (l.take 3).flatMap fun a => l.map fun b => (a, b) }
 
 def holds (l : List Id) (o : Obs) : Bool := decide (o = expected l)
 
@@ -43,6 +50,9 @@ def observe (s : Heap) (fuel : Nat) : Obs :=
     first := s.root
     last := s.head
     links := it.map fun x => (x, s.prev x, s.next x, (s.prev x).isNone, (s.next x).isNone)
-    back := iterBack s fuel }
+    back := iterBack s fuel
+    -- iterations of the model are values: overlapping ones cannot interfere
+    zipped := it.map fun x => (x, x)
+    nested := (it.take 3).flatMap fun a => it.map fun b => (a, b) }
 
 end Spec.C07
